@@ -545,9 +545,9 @@ fn run(ctx: &RunCtx) {
     let n2 = ctx.tier.pick(40_000, 1_500_000);
     ctx.search("pipelines", n2, 700, |tape, st| {
         let mut t = Tape::new(tape);
-        // a quarter of the cases: comments and blank lines everywhere and the retain_lines generator
+        // four cases in ten: comments and blank lines everywhere and the retain_lines generator
         // (rules that remove or re-order statements move the trivia of what they remove)
-        let retained = t.bool(64);
+        let retained = t.bool(104);
         let source = valid_program_with(&mut t, retained);
         let mut config = cfg::gen_config(&mut t, &opts);
         if retained {
@@ -556,7 +556,7 @@ fn run(ctx: &RunCtx) {
             // at least one rule that removes whole statements (their comments move to what follows)
             const REMOVERS: [&str; 10] = ["remove_types", "remove_unused_variable", "remove_empty_do", "remove_unused_while", "remove_unused_if_branch", "filter_after_early_return", "remove_nil_declaration", "remove_debug_profiling", "remove_assertions", "remove_function_call_parens"];
             let mut rules: Vec<Value> = config.get("rules").and_then(|r| r.as_array()).cloned().unwrap_or_default();
-            for _ in 0..1 + t.choose(2) {
+            for _ in 0..1 + t.choose(3) {
                 let at = t.choose(rules.len() + 1);
                 rules.insert(at, json!(REMOVERS[t.choose(REMOVERS.len())]));
             }
